@@ -21,7 +21,7 @@ WHAT = {
  "C15": ("write path as an interleaving system of queueing threads, writer and I/O loop (program extracted from the running code): accepted bytes are always a prefix of, finally equal to, the FIFO concatenation, for every schedule, partial write and write error", "C15"),
  "C16": ("identifier generators: never zero, wrap to 1, distinct within the period, start-value and session-id format laws; for the line skeleton extracted from the source, distinctness under every schedule of any number of threads", "C16"),
  "C17": ("retransmission window: reject iff answered-within-window and T; the window is exactly the last rq answered ids for every sequence of answers; a rejected repeat is handed to no application and answered by exactly one message on its connection", "C17"),
- "C18": ("serialised node model: shutdown clauses; the stopping flag is never lowered and, in every state of every continuation of a history containing stop(), timer check, reconnect pass and admission of newcomers do nothing; for every sequence of operations followed by the I/O thread's final pass: no connection is registered, every connection object ever created has a closed socket and stopped workers, and the connection, socket and pending-answer tables are empty (invariant: an open socket belongs to a registered connection)", "C18"),
+ "C18": ("serialised node model: shutdown clauses; the stopping flag is never lowered and, in every state of every continuation of a history containing stop(), timer check, reconnect pass and admission of newcomers do nothing; for every sequence of operations followed by the I/O thread's final pass: no connection is registered, every connection object ever created has a closed socket and stopped workers, and the connection, socket and pending-answer tables are empty (invariant: an open socket belongs to a registered connection); for every state a graceful stop appends nothing but REBOOTING DPRs to the write queues and a forced stop queues nothing", "C18"),
  "C19": ("node model, for every sequence of operations: a connection whose workers run is registered, pending-answer tables exist for registered connections only, and once no connection is registered every worker has stopped and the per-connection tables are empty; step lemmas for the per-transaction tables", "C19"),
  "C20": ("answer class pairing (kernel-checked) and header law", "C20"),
 }
